@@ -75,6 +75,8 @@ struct C<'a> {
     my_addr: IpAddr,
     next_id: u32,
     final_phase: bool,
+    /// prefix length of the interface's subnet
+    plen: u8,
     frag_mode: bool,
     /// instant of the poll before the current one
     prev_poll: i64,
@@ -94,11 +96,23 @@ impl<'a> C<'a> {
     }
 }
 
+thread_local! {
+    /// prefix length of the IPv6 subnet of the current run (when shorter than /64 the hosts are spread over the
+    /// /64s it covers, so that on-link decisions depend on the bits of the partly covered octet)
+    static PLEN6: std::cell::Cell<u8> = const { std::cell::Cell::new(64) };
+    /// prefix length of the interface's subnet, whatever the family
+    static PLEN: std::cell::Cell<u8> = const { std::cell::Cell::new(24) };
+}
+
 fn ip_of(v6: bool, host: u8) -> IpAddr {
     if v6 {
         let mut a = [0u8; 16];
         a[0] = 0xfd;
         a[15] = host;
+        let plen = PLEN6.with(|p| p.get());
+        if plen < 64 {
+            a[7] = host & ((1u16 << (64 - plen)) - 1) as u8;
+        }
         IpAddr::V6(a)
     } else {
         IpAddr::V4([10, 0, 0, host])
@@ -106,7 +120,20 @@ fn ip_of(v6: bool, host: u8) -> IpAddr {
 }
 
 fn off_link(v6: bool, k: u8) -> IpAddr {
-    // 0,2: inside the specific route's prefix; 1: only the default route matches
+    // 0,2: inside the specific route's prefix; 1: only the default route matches; 3: the first address block right
+    // outside the interface's own subnet (differs from it in the last bit the prefix does not cover any more)
+    if k == 3 {
+        let plen = PLEN.with(|p| p.get());
+        return if v6 {
+            let mut a = [0u8; 16];
+            a[0] = 0xfd;
+            a[7] = (1u16 << (64 - plen.min(64))).min(128) as u8;
+            a[15] = 9;
+            IpAddr::V6(a)
+        } else {
+            IpAddr::V4([10, 0, (1u16 << (24 - plen.min(24))).min(128) as u8, 9])
+        };
+    }
     if v6 {
         let mut a = [0u8; 16];
         a[0] = 0x20;
@@ -155,7 +182,7 @@ fn in_prefix(a: &IpAddr, p: &IpAddr, len: u8) -> bool {
 }
 
 fn on_link(c: &C, a: &IpAddr) -> bool {
-    in_prefix(a, &c.my_addr, if c.v6 { 64 } else { 24 })
+    in_prefix(a, &c.my_addr, c.plen)
 }
 
 /// Next hop per the statement: the destination if on-link, else the gateway of the longest-prefix
@@ -171,7 +198,12 @@ pub fn run(tape: &mut Tape, props: Props, thorough: bool, trace_on: bool) -> Out
     let v6 = tape.draw(3) == 2;
     let mut cfg = NodeCfg::basic('V', Medium::Ethernet, 1514, 1, v6);
     cfg.mac = V_MAC;
-    cfg.addrs = vec![(ip_of(v6, 1), if v6 { 64 } else { 24 })];
+    // prefix length of the interface's subnet: the usual one, or a shorter one that ends inside an octet (IPv6: the
+    // neighbours and gateways are then spread over the /64s it covers)
+    let plen: u8 = if v6 { *tape.pick(&[64u8, 64, 64, 62, 61, 58, 63]) } else { *tape.pick(&[24u8, 24, 24, 23, 22, 21]) };
+    PLEN6.with(|p| p.set(if v6 { plen } else { 64 }));
+    PLEN.with(|p| p.set(plen));
+    cfg.addrs = vec![(ip_of(v6, 1), plen)];
     cfg.seed = 5 + tape.draw(1 << 16);
     // some IPv4 runs use a small link MTU: datagrams are fragmented on egress and the fragments of one
     // datagram leave over several polls (device back-pressure) while other neighbours keep talking to the node
@@ -194,7 +226,7 @@ pub fn run(tape: &mut Tape, props: Props, thorough: bool, trace_on: bool) -> Out
         s.bind(7000 + k).unwrap();
         socks.push((node.sockets.add(s), 7000 + k, VecDeque::new()));
     }
-    let desc = format!("neighbours v6={} on-link-neighbours={} (cache slots 8) egress-fragmentation={}", v6, nn, frag_mode);
+    let desc = format!("neighbours v6={} /{} on-link-neighbours={} (cache slots 8) egress-fragmentation={}", v6, plen, nn, frag_mode);
     let mut c = C {
         tape,
         props,
@@ -218,6 +250,7 @@ pub fn run(tape: &mut Tape, props: Props, thorough: bool, trace_on: bool) -> Out
         my_addr: ip_of(v6, 1),
         next_id: 0,
         final_phase: false,
+        plen,
         frag_mode,
         prev_poll: 0,
         this_poll: 0,
@@ -519,7 +552,7 @@ fn on_tx(c: &mut C, p: &Packet) -> Result<(), Violation> {
 fn pick_dst(c: &mut C) -> IpAddr {
     let nn = c.nbs.len() - 2;
     match c.tape.draw(8) {
-        0 | 1 => off_link(c.v6, c.tape.draw(3) as u8),
+        0 | 1 => off_link(c.v6, c.tape.draw(4) as u8),
         _ => c.nbs[c.tape.draw(nn as u64) as usize].ip.clone(),
     }
 }
@@ -605,7 +638,7 @@ fn scenario_switch(c: &mut C) -> Result<(), Violation> {
             let host = if c.my_addr == ip_of(c.v6, 1) { 2 } else { 1 };
             c.my_addr = ip_of(c.v6, host);
             let a = c.my_addr.clone();
-            let plen = if c.v6 { 64 } else { 24 };
+            let plen = c.plen;
             let iface = &mut c.node.iface;
             guard("update_ip_addrs", || {
                 iface.update_ip_addrs(|v| {
@@ -665,8 +698,36 @@ fn body(c: &mut C, thorough: bool) -> Result<(), Violation> {
         poll(c)?;
         advance(c)?;
     }
-    // ---- final phase: everybody answers, routes are back; every queued datagram must go out
+    // ---- before the final phase: everybody answers, the route table stays as the run left it (entries may still
+    // expire). A datagram at the head of a socket queue whose destination is on-link or matched by an unexpired route
+    // at the end of these 30 s was routable throughout and must have left - also when a more specific route that
+    // used to cover it has expired in the meantime
     c.final_phase = true;
+    {
+        let t_end = c.now + 30_000_000;
+        for _ in 0..400 {
+            poll(c)?;
+            let now = c.now;
+            let pa = c.node.poll_at(now)?;
+            c.inflight.sort_by_key(|x| (x.0, x.1));
+            let nf = c.inflight.first().map(|x| x.0);
+            let next = [pa, nf].iter().flatten().min().copied().unwrap_or(c.now + 1_000_000).max(c.now + 1);
+            if next > t_end {
+                break;
+            }
+            c.now = next;
+        }
+        if c.props.has("C16") {
+            for (k, s) in c.socks.iter().enumerate() {
+                if let Some(q) = s.2.front() {
+                    if next_hop(c, &q.dst).is_some() {
+                        return Err(viol("C16", "queue", "C16.queue/routable-datagram-not-transmitted", format!("socket {} still holds a datagram to {} after 30 s in which every neighbour answered and an unexpired route (or the subnet) covered the destination all along", k, q.dst)));
+                    }
+                }
+            }
+        }
+    }
+    // ---- final phase: everybody answers, routes are back; every queued datagram must go out
     c.routes = vec![(if c.v6 { IpAddr::V6([0; 16]) } else { IpAddr::V4([0; 4]) }, 0, ip_of(c.v6, 254), None), {
         let (sp, sl) = specific_prefix(c.v6);
         (sp, sl, ip_of(c.v6, 253), None)
